@@ -14,6 +14,8 @@ Four families, each a finite grammar enumerated completely up to a size bound
   L  list routes  every route of the alias table: binding, indexing, slicing,
                   construction, tuple field, `for row in xss`, comprehension
                   variable, if-expression, enumerate/zip, element stores
+  P  loop consts  names initialised to constants and re-defined in a loop body by tuple
+                  destructuring / plain assignment, read in the body and after the loop
   Z  sizes        zip / assert / slices with constant and symbolic bounds /
                   range / comprehensions / helper calls, under branches, loops
                   and early returns
@@ -298,6 +300,41 @@ def family_V_chain() -> Iterator[Prog]:
 
 
 # ----------------------------------------------------------------------
+# Family P: loop-carried constants.  Names initialised to constants before a loop and re-defined in its body
+# by tuple-destructuring (swap, Fibonacci step, partial `a, _ = ...`) and plain assignments, read later in the
+# body and after the loop, under a pinned context so that the first pass of a loop fixpoint *can* fold them.
+# Whatever a later pass can no longer fold must not stay recorded as a constant.
+
+P_STMTS = [
+    ['a, b = (b, a)'],
+    ['a, b = (b, a + b)'],
+    ['a, b = (a + 1, b)'],
+    ['b, a = (a, b + 1)'],
+    ['a, _ = (b, a)'],
+    ['a, b = (b, 1)'],
+    ['s = s + a'],
+    ['s = b'],
+    ['a = a + 1'],
+    ['if u > 0:', '    a, b = (b, a + b)'],
+    ['if u > 0:', '    a, b = (b, a)', 'else:', '    s = s + b'],
+]
+P_INITS = [('1', '1'), ('1', '2'), ('0', '1')]
+
+
+def family_P() -> Iterator[Prog]:
+    bodies = [[x] for x in P_STMTS] + [[x, y] for x in P_STMTS for y in P_STMTS]
+    for ia, ib in P_INITS:
+        for body in bodies:
+            lines = [ln for st in body for ln in st]
+            pre = [f'a = {ia}', f'b = {ib}', 's = 0']
+            post = ['t = a + b', 'return (a, b, s, t)']
+            yield make_prog('P', pre + ['for i in range(n):'] + indent(lines) + post, 'P-for',
+                            deco=f'@fp.fpy(ctx={FCTX})')
+            yield make_prog('P', pre + ['k = 0', 'while k < n:'] + indent(lines + ['k = k + 1']) + post, 'P-while',
+                            deco=f'@fp.fpy(ctx={FCTX})')
+
+
+# ----------------------------------------------------------------------
 # Family L
 
 class LGrammar(Grammar):
@@ -537,6 +574,7 @@ POOLS = {
           'vs': [[1.0]], 'uss': [[[1.0]]]},
     'V': {'u': [NAN, INF, -INF, 0.0, -0.0, 1.0, 1.5, -2.0, 5e-324], 'v': [NAN, INF, 0.0, 1.0, -3.0],
           'n': [0, 2], 'us': [[], [0.0, NAN]], 'vs': [[1.0]], 'uss': [[[1.0]]]},
+    'P': {'u': [-1.0, 1.0], 'v': [1.0], 'n': [0, 1, 2, 3, 4], 'us': [[1.0]], 'vs': [[1.0]], 'uss': [[[1.0]]]},
     'L': {'u': [-1.0, 1.0], 'v': [1.0], 'n': [0, 1],
           'us': [[1.0, 2.0]], 'vs': [[7.0, 8.0, 9.0]],
           'uss': [[[3.0], [4.0, 5.0]], [[3.0, 6.0]]]},
@@ -602,6 +640,7 @@ def space(tier: str, seed: int = 0):
         return [
             ('J<=3', lambda: family_J(3), None),
             ('J=4', lambda: family_J(4, True), (seed % 16, 16)),
+            ('P', family_P, None),
             ('Vquick', lambda: family_V('quick'), None),
             ('Vchain', family_V_chain, None),
             ('L<=2', lambda: family_L(2, False), None),
@@ -611,6 +650,7 @@ def space(tier: str, seed: int = 0):
         ]
     return [
         ('J<=4', lambda: family_J(4), None),
+        ('P', family_P, None),
         ('V', lambda: family_V('thorough'), None),
         ('Vchain', family_V_chain, None),
         ('L<=3', lambda: family_L(3, False), None),
